@@ -310,7 +310,7 @@ def check_fresh(case):
     here = run_generation(dict(case, pyseed=3))
     p = subprocess.run([sys.executable, "-c", FRESH, REPO, VERIF, json.dumps(case), "424242"],
                        stdout=subprocess.PIPE, stderr=subprocess.PIPE, text=True,
-                       env=dict(os.environ, PYTHONHASHSEED="0"))
+                       env=dict(os.environ, PYTHONHASHSEED=str(1 + case["seed"] % 4000)))  # another hash seed
     line = [l for l in p.stdout.splitlines() if l.startswith("SEQ ")]
     if not line:
         raise Failure("fresh-interpreter-run-failed", observed=p.stderr[-300:])
@@ -578,6 +578,10 @@ def strategies():
     @st.composite
     def gen_case(draw, kind):
         p = draw(pattern.filter(lambda q: any(True for _ in builders(q))))
+        if kind == "fresh" and draw(st.integers(0, 2)) > 0:
+            # string-valued choices: anything that orders them by hash differs between interpreters
+            strs = draw(st.sampled_from([["..", "^0", "v1", "<2", ">3"], ["a", "b", "c", "d"], ["..", "??", "x"]]))
+            p = ["list", [["choice", strs, strs[0]], ["choice", strs, strs[0]], p]]
         return dict(kind=kind, pattern=p, seed=draw(st.integers(0, 2 ** 32 - 1)), salt=draw(st.integers(0, 10 ** 6)),
                     sat_pct=draw(st.sampled_from([30, 60, 90, 100])), uniq_pct=draw(st.sampled_from([0, 3, 10, 30])),
                     pretest_pct=draw(st.sampled_from([50, 90])), use_pretest=draw(st.booleans()),
@@ -660,7 +664,7 @@ def run(ctx):
         "SegmentationBuilder2D, nested lists and tuples with constants) x pure hash-based solver / uniqueness "
         "/ score / pretest / penalty callbacks, checked through a wrapped neighbour generator; (repro) same "
         "seed under two Python random.seed values and another seed; (backends) a real cspuz model on z3 vs "
-        "the cspuz_core stand-in; (fresh) another interpreter; (range) randint/choice/shuffle/random; (stat) "
+        "the cspuz_core stand-in; (fresh) another interpreter started with another PYTHONHASHSEED; (range) randint/choice/shuffle/random; (stat) "
         "chi-square with p > 1e-9; (struct) dictated raw 32-bit words. non-trivial = soundness run with >= 3 "
         "solver calls and an accepted move / randint with a != 0 / every other case; distinct by case hash")
     ctx.assumptions = [
@@ -672,7 +676,7 @@ def run(ctx):
     ]
     q = ctx.quick()
     plan = dict(sound=120 if q else 3000, repro=40 if q else 800, range=60 if q else 2000,
-                stat=2 if q else 20, struct=40 if q else 1500, backends=1 if q else 6, fresh=1 if q else 4)
+                stat=2 if q else 20, struct=40 if q else 1500, backends=1 if q else 6, fresh=3 if q else 8)
     k = 8 if q else 16
     for r in pmap(shard, [(ctx.seed * 1000 + i, plan if i < 6 or not q else dict(plan, fresh=0, backends=0))
                           for i in range(k)]):
